@@ -204,6 +204,38 @@ Proof.
   apply slice_mid.
 Qed.
 
+Lemma bytes_eqb_iff : forall a b, bytes_eqb a b = true <-> a = b.
+Proof.
+  unfold bytes_eqb. induction a as [|x a IH]; intros [|y b]; cbn; try (split; [discriminate|discriminate]); [tauto|].
+  rewrite Bool.andb_true_iff, N.eqb_eq, IH. split; [intros [-> ->]; reflexivity|intros H; injection H as -> ->; split; reflexivity].
+Qed.
+
+(* the guard of 86e6b5f holds for a string of the document: its quoted text stands at its index *)
+Lemma json_raw_at_doc pre raw post :
+  json_raw_at (pre ++ QUOTE :: raw ++ QUOTE :: post) (len pre) (QUOTE :: raw ++ [QUOTE]) = Ok true.
+Proof.
+  unfold json_raw_at.
+  replace (pre ++ QUOTE :: raw ++ QUOTE :: post) with (pre ++ (QUOTE :: raw ++ [QUOTE]) ++ post)
+    by (cbn [app]; rewrite <- app_assoc; reflexivity).
+  pose proof (len_nonneg post).
+  replace (len (pre ++ (QUOTE :: raw ++ [QUOTE]) ++ post) <? len pre + len (QUOTE :: raw ++ [QUOTE])) with false
+    by (rewrite !len_app; lia).
+  rewrite slice_mid. cbn [bind]. f_equal. apply bytes_eqb_iff. reflexivity.
+Qed.
+
+(* ... and fails when Raw does not occur at Index: nothing is cut *)
+Lemma json_raw_at_false data index raw : 0 <= index -> ~ raw_occurs_at data index raw ->
+  json_raw_at data index raw = Ok false.
+Proof.
+  intros Hi Hn. unfold json_raw_at. destruct (len data <? index + len raw) eqn:E; [reflexivity|].
+  pose proof (len_nonneg raw). rewrite slice_ok by lia. cbn [bind]. f_equal.
+  destruct (bytes_eqb _ raw) eqn:Eb; [|reflexivity]. exfalso. apply Hn. apply bytes_eqb_iff in Eb.
+  exists (firstn (Z.to_nat index) data), (skipn (Z.to_nat (index + len raw - index)) (skipn (Z.to_nat index) data)).
+  split.
+  - rewrite <- Eb at 1. rewrite firstn_skipn, firstn_skipn. reflexivity.
+  - unfold len in *. rewrite firstn_length. lia.
+Qed.
+
 Lemma json_cut_at_doc pre raw post (k : nat) : (k <= length raw)%nat ->
   json_cut_at (pre ++ QUOTE :: raw ++ QUOTE :: post) (len pre + Z.of_nat k + 1, len pre + len raw) =
   Ok (pre ++ QUOTE :: firstn k raw ++ QUOTE :: post).
@@ -260,19 +292,21 @@ Proof.
 Qed.
 
 Lemma json_cut_pos_doc pre raw post strlen limit : esc_valid raw = true -> 0 <= limit ->
-  json_cut_pos (pre ++ QUOTE :: raw ++ QUOTE :: post) (len pre) strlen limit =
+  json_cut_pos (pre ++ QUOTE :: raw ++ QUOTE :: post) (len pre) strlen limit (QUOTE :: raw ++ [QUOTE]) =
   Ok (if strlen <=? limit then None
       else Some (len pre + Z.of_nat (json_kept raw strlen limit) + 1, len pre + len raw)).
 Proof.
   intros Hv Hl. unfold json_cut_pos. destruct (strlen <=? limit) eqn:Es; [reflexivity|].
-  rewrite json_raw_len_at_doc by exact Hv.
+  rewrite json_raw_at_doc. cbn [bind negb]. rewrite json_raw_len_at_doc by exact Hv.
+  replace (len (QUOTE :: raw ++ [QUOTE]) - 2) with (len raw) by (rewrite len_cons, len_app; cbn; lia).
+  rewrite Z.eqb_refl. cbn [negb].
   rewrite slice_content. cbn [bind]. rewrite (json_kept_keep raw strlen limit) by lia. reflexivity.
 Qed.
 
 (* ---- one path --------------------------------------------------------------------------------------- *)
 Theorem json_cut_doc : forall pre raw post strlen limit,
   esc_valid raw = true -> 0 <= limit ->
-  json_cut (pre ++ QUOTE :: raw ++ QUOTE :: post) (len pre) strlen limit =
+  json_cut (pre ++ QUOTE :: raw ++ QUOTE :: post) (len pre) strlen limit (QUOTE :: raw ++ [QUOTE]) =
   Ok (pre ++ QUOTE :: firstn (json_kept raw strlen limit) raw ++ QUOTE :: post).
 Proof.
   intros pre raw post strlen limit Hv Hl. unfold json_cut. rewrite json_cut_pos_doc by assumption. cbn [bind].
@@ -285,7 +319,7 @@ Qed.
 Theorem json_cut_spec : forall pre raw post strlen limit,
   esc_valid raw = true -> 0 <= limit ->
   exists k : nat,
-    json_cut (pre ++ QUOTE :: raw ++ QUOTE :: post) (len pre) strlen limit =
+    json_cut (pre ++ QUOTE :: raw ++ QUOTE :: post) (len pre) strlen limit (QUOTE :: raw ++ [QUOTE]) =
       Ok (pre ++ QUOTE :: firstn k raw ++ QUOTE :: post) /\
     (k <= length raw)%nat /\
     esc_valid (firstn k raw) = true /\
@@ -302,7 +336,7 @@ Qed.
 
 Corollary json_cut_keeps_framing : forall pre raw post strlen limit,
   esc_valid raw = true -> 0 <= limit ->
-  exists out, json_cut (pre ++ QUOTE :: raw ++ QUOTE :: post) (len pre) strlen limit = Ok out /\
+  exists out, json_cut (pre ++ QUOTE :: raw ++ QUOTE :: post) (len pre) strlen limit (QUOTE :: raw ++ [QUOTE]) = Ok out /\
               cut_keeps_framing pre raw post out.
 Proof.
   intros pre raw post strlen limit Hv Hl. eexists. split; [apply json_cut_doc; assumption|].
@@ -321,26 +355,48 @@ Proof.
   rewrite len_cons in L. lia.
 Qed.
 
-Lemma json_cut_pos_total data index strlen limit : 0 <= limit -> json_raw_len_at data index <> None ->
-  exists r, json_cut_pos data index strlen limit = Ok r /\
+(* gjson's Raw, when it stands at Index, is the string that starts there *)
+Definition raw_consistent (data : bytes) (index : Z) (raw : bytes) : Prop :=
+  json_raw_at data index raw = Ok true -> json_raw_len_at data index = Some (len raw - 2).
+
+Lemma json_raw_at_total data index raw : 0 <= index -> exists b, json_raw_at data index raw = Ok b.
+Proof.
+  intros Hi. unfold json_raw_at. destruct (len data <? index + len raw) eqn:E; [eexists; reflexivity|].
+  pose proof (len_nonneg raw). rewrite slice_ok by lia. eexists. reflexivity.
+Qed.
+
+Lemma json_cut_pos_total data index strlen limit raw :
+  0 <= limit -> 0 <= index -> raw_consistent data index raw ->
+  exists r, json_cut_pos data index strlen limit raw = Ok r /\
             match r with Some (s, e) => 0 <= s <= e + 1 /\ e + 1 <= len data | None => True end.
 Proof.
-  intros Hl Hr. unfold json_cut_pos. destruct (strlen <=? limit); [exists None; split; [reflexivity|exact I]|].
-  destruct (json_raw_len_at data index) as [n|] eqn:En; [|congruence].
-  apply json_raw_len_at_inv in En. destruct En as (H0 & Hn & Hd).
+  intros Hl Hi Hr. unfold json_cut_pos. destruct (strlen <=? limit); [exists None; split; [reflexivity|exact I]|].
+  destruct (json_raw_at_total data index raw Hi) as [[|] Eb]; rewrite Eb; cbn [bind negb];
+    [|exists None; split; [reflexivity|exact I]].
+  rewrite (Hr Eb). rewrite Z.eqb_refl. cbn [negb].
+  pose proof (json_raw_len_at_inv _ _ _ (Hr Eb)) as (H0 & Hn & Hd).
   step_slice content. destruct (json_cut_keep_total content limit Hl) as (k & Ek & Hk). rewrite Ek. cbn [bind].
   eexists. split; [reflexivity|]. cbn beta iota. lia.
 Qed.
 
-Theorem json_cut_total : forall data index strlen limit p,
-  0 <= limit -> json_raw_len_at data index <> None ->
-  json_cut data index strlen limit <> Panic p.
+Theorem json_cut_total : forall data index strlen limit raw p,
+  0 <= limit -> 0 <= index -> raw_consistent data index raw ->
+  json_cut data index strlen limit raw <> Panic p.
 Proof.
-  intros data index strlen limit p Hl Hr. unfold json_cut.
-  destruct (json_cut_pos_total data index strlen limit Hl Hr) as (r & Er & Hb). rewrite Er. cbn [bind].
+  intros data index strlen limit raw p Hl Hi Hr. unfold json_cut.
+  destruct (json_cut_pos_total data index strlen limit raw Hl Hi Hr) as (r & Er & Hb). rewrite Er. cbn [bind].
   destruct r as [[s e]|]; [|discriminate].
   unfold json_cut_at, slice_to, slice_from. cbn [fst snd].
   step_slice a. step_slice b. discriminate.
+Qed.
+
+(* ---- 86e6b5f: an answer whose Raw does not occur at Index (gjson: Index unknown) cuts nothing ------- *)
+Theorem json_cut_index_unknown : forall data index strlen limit raw,
+  0 <= index -> ~ raw_occurs_at data index raw ->
+  json_cut data index strlen limit raw = Ok data.
+Proof.
+  intros data index strlen limit raw Hi Hn. unfold json_cut, json_cut_pos.
+  destruct (strlen <=? limit); [reflexivity|]. rewrite json_raw_at_false by assumption. reflexivity.
 Qed.
 
 (* ---- several paths ---------------------------------------------------------------------------------- *)
@@ -357,9 +413,10 @@ Fixpoint jf_poss (at_ : Z) (fs : list jfield) : list (Z * Z) :=
       field_poss at_ raw strlen (limit :: more) ++ jf_poss (at_ + len raw + 2 + len post) r
   end.
 
-Definition pos_list (data : bytes) (x : Z * Z * Z) : list (Z * Z) :=
-  let '(index, strlen, limit) := x in
-  match json_cut_pos data index strlen limit with Ok (Some p) => [p] | _ => [] end.
+Definition pos_of (data : bytes) (x : jfound) : res (option (Z * Z)) :=
+  let '(index, strlen, limit, raw) := x in json_cut_pos data index strlen limit raw.
+Definition pos_list (data : bytes) (x : jfound) : list (Z * Z) :=
+  match pos_of data x with Ok (Some p) => [p] | _ => [] end.
 
 Lemma jf_doc_cons raw post strlen limit more r :
   jf_doc ((raw, post, strlen, limit, more) :: r) = QUOTE :: raw ++ QUOTE :: post ++ jf_doc r.
@@ -410,16 +467,16 @@ Qed.
 Lemma json_find_field data pre raw post strlen : esc_valid raw = true ->
   data = pre ++ QUOTE :: raw ++ QUOTE :: post ->
   forall ls, Forall (fun l => 0 <= l) ls ->
-  (forall x, In x (map (fun l => (len pre, strlen, l)) ls) ->
-     exists p, (let '(index, strlen, limit) := x in json_cut_pos data index strlen limit) = Ok p) /\
-  flat_map (pos_list data) (map (fun l => (len pre, strlen, l)) ls) = field_poss (len pre) raw strlen ls.
+  (forall x, In x (map (fun l => (len pre, strlen, l, QUOTE :: raw ++ [QUOTE])) ls) -> exists p, pos_of data x = Ok p) /\
+  flat_map (pos_list data) (map (fun l => (len pre, strlen, l, QUOTE :: raw ++ [QUOTE])) ls) =
+  field_poss (len pre) raw strlen ls.
 Proof.
   intros Hv Hd. induction ls as [|l ls IH]; intros Hls; [split; [intros x []|reflexivity]|].
   inversion Hls as [|l' ls' Hl Hr]; subst l' ls'. destruct (IH Hr) as [IH1 IH2].
-  assert (E1 : json_cut_pos data (len pre) strlen l =
+  assert (E1 : pos_of data (len pre, strlen, l, QUOTE :: raw ++ [QUOTE]) =
                Ok (if strlen <=? l then None
                    else Some (len pre + Z.of_nat (json_kept raw strlen l) + 1, len pre + len raw))).
-  { rewrite Hd. apply json_cut_pos_doc; assumption. }
+  { unfold pos_of. rewrite Hd. apply json_cut_pos_doc; assumption. }
   cbn [map flat_map]. split.
   - intros x [<-|Hx]; [eexists; exact E1|apply IH1; exact Hx].
   - rewrite IH2. unfold field_poss. cbn [flat_map]. f_equal. unfold pos_list. rewrite E1.
@@ -427,8 +484,7 @@ Proof.
 Qed.
 
 Lemma json_find_each : forall fs pre data, data = pre ++ jf_doc fs -> Forall jf_ok fs ->
-  (forall x, In x (jf_found (len pre) fs) ->
-     exists p, (let '(index, strlen, limit) := x in json_cut_pos data index strlen limit) = Ok p) /\
+  (forall x, In x (jf_found (len pre) fs) -> exists p, pos_of data x = Ok p) /\
   flat_map (pos_list data) (jf_found (len pre) fs) = jf_poss (len pre) fs.
 Proof.
   induction fs as [|[[[[raw post] strlen] limit] more] r IH]; intros pre data Hd Hok.
@@ -444,18 +500,37 @@ Proof.
     destruct (IH pre' data Hd' Hr) as [IH1 IH2]. rewrite Hl' in IH1, IH2.
     cbn [jf_found jf_poss]. split.
     + intros x Hx. apply in_app_or in Hx. destruct Hx as [Hx|Hx]; [apply F1; exact Hx|apply IH1; exact Hx].
-    + rewrite flat_map_app, F2, IH2. reflexivity.
+    + rewrite flat_map_app. f_equal; [exact F2|exact IH2].
 Qed.
 
 Lemma json_find_all_ok data : forall found,
-  (forall x, In x found ->
-     exists p, (let '(index, strlen, limit) := x in json_cut_pos data index strlen limit) = Ok p) ->
+  (forall x, In x found -> exists p, pos_of data x = Ok p) ->
   json_find_all data found = Ok (flat_map (pos_list data) found).
 Proof.
-  induction found as [|[[index strlen] limit] r IH]; intros H; [reflexivity|].
-  destruct (H (index, strlen, limit) (or_introl eq_refl)) as [p Ep]. cbn beta iota in Ep.
-  cbn [json_find_all flat_map]. unfold pos_list at 1. rewrite Ep. cbn [bind].
+  induction found as [|[[[index strlen] limit] raw] r IH]; intros H; [reflexivity|].
+  destruct (H (index, strlen, limit, raw) (or_introl eq_refl)) as [p Ep].
+  cbn [json_find_all flat_map]. unfold pos_list at 1. rewrite Ep. unfold pos_of in Ep. rewrite Ep. cbn [bind].
   rewrite IH by (intros x Hx; apply H; right; exact Hx). cbn [bind]. destruct p; reflexivity.
+Qed.
+
+(* answers that find nothing (Raw not at Index, or the string fits its limit) do not matter *)
+Definition finds_nothing (data : bytes) (x : jfound) : Prop := pos_of data x = Ok None.
+
+Lemma json_find_all_app data : forall a b,
+  json_find_all data (a ++ b) = (pa <- json_find_all data a ;; pb <- json_find_all data b ;; Ok (pa ++ pb)).
+Proof.
+  induction a as [|[[[index strlen] limit] raw] a IH]; intros b.
+  - cbn [app json_find_all bind]. destruct (json_find_all data b); reflexivity.
+  - cbn [app json_find_all]. destruct (json_cut_pos data index strlen limit raw) as [p|e|e]; cbn [bind]; try reflexivity.
+    rewrite IH. destruct (json_find_all data a) as [pa|e|e]; cbn [bind]; try reflexivity.
+    destruct (json_find_all data b) as [pb|e|e]; cbn [bind]; try reflexivity. destruct p; reflexivity.
+Qed.
+
+Lemma json_find_all_nothing data : forall junk, Forall (finds_nothing data) junk -> json_find_all data junk = Ok [].
+Proof.
+  induction junk as [|[[[index strlen] limit] raw] junk IH]; intros H; [reflexivity|].
+  inversion H as [|x junk' Hx Hj]; subst x junk'. unfold finds_nothing, pos_of in Hx.
+  cbn [json_find_all]. rewrite Hx, (IH Hj). reflexivity.
 Qed.
 
 (* sorting: the result is determined by the multiset when equal starts mean equal positions *)
@@ -702,19 +777,48 @@ Proof.
       pose proof (json_kept_mono raw strlen m l Hv ltac:(lia)). lia.
 Qed.
 
+Lemma flat_map_nothing data : forall junk, Forall (finds_nothing data) junk -> flat_map (pos_list data) junk = [].
+Proof.
+  induction junk as [|x junk IH]; intros H; [reflexivity|]. inversion H as [|x' j' Hx Hj]; subst x' j'.
+  cbn [flat_map]. rewrite (IH Hj). unfold pos_list. rewrite Hx. reflexivity.
+Qed.
+
 (* gjson's answers arrive in the (random) iteration order of a Go map: any permutation; several of them
-   may name the same string *)
-Theorem json_cut_many_spec : forall pre fs found,
-  Forall jf_ok fs -> Permutation found (jf_found (len pre) fs) ->
+   may name the same string; answers that find nothing (Raw not at Index) may be among them *)
+Theorem json_cut_many_spec : forall pre fs junk found,
+  Forall jf_ok fs -> Forall (finds_nothing (pre ++ jf_doc fs)) junk ->
+  Permutation found (jf_found (len pre) fs ++ junk) ->
   json_cut_many (pre ++ jf_doc fs) found = Ok (pre ++ jf_cut fs).
 Proof.
-  intros pre fs found Hok Hp. unfold json_cut_many.
+  intros pre fs junk found Hok Hj Hp. unfold json_cut_many.
   destruct (json_find_each fs pre _ eq_refl Hok) as [Heach Hflat].
-  rewrite json_find_all_ok by (intros x Hx; apply Heach; eapply Permutation_in; [exact Hp|exact Hx]).
+  rewrite json_find_all_ok.
+  2:{ intros x Hx. apply (Permutation_in _ Hp) in Hx. apply in_app_or in Hx. destruct Hx as [Hx|Hx]; [apply Heach; exact Hx|].
+      rewrite Forall_forall in Hj. exists None. apply Hj. exact Hx. }
   cbn [bind]. rewrite (sort_desc_congr _ (jf_poss (len pre) fs)).
   - rewrite jf_poss_sorted by exact Hok. apply json_cut_all_doc. exact Hok.
-  - rewrite <- Hflat. apply Permutation_flat_map. exact Hp.
+  - rewrite (Permutation_flat_map (pos_list (pre ++ jf_doc fs)) Hp), flat_map_app, Hflat, flat_map_nothing by exact Hj.
+    rewrite app_nil_r. reflexivity.
   - apply jf_poss_key_inj. exact Hok.
+Qed.
+
+(* 86e6b5f, several paths: an answer whose Raw does not occur at Index is ignored, wherever it stands *)
+Lemma finds_nothing_unknown data index strlen limit raw :
+  0 <= index -> ~ raw_occurs_at data index raw -> finds_nothing data (index, strlen, limit, raw).
+Proof.
+  intros Hi Hn. unfold finds_nothing, pos_of, json_cut_pos.
+  destruct (strlen <=? limit); [reflexivity|]. rewrite json_raw_at_false by assumption. reflexivity.
+Qed.
+
+Theorem json_cut_many_index_unknown : forall data found1 index strlen limit raw found2,
+  0 <= index -> ~ raw_occurs_at data index raw ->
+  json_cut_many data (found1 ++ (index, strlen, limit, raw) :: found2) = json_cut_many data (found1 ++ found2).
+Proof.
+  intros data found1 index strlen limit raw found2 Hi Hn. unfold json_cut_many.
+  pose proof (finds_nothing_unknown data index strlen limit raw Hi Hn) as Hx. unfold finds_nothing, pos_of in Hx.
+  rewrite !json_find_all_app. cbn [json_find_all]. rewrite Hx. cbn [bind].
+  destruct (json_find_all data found1) as [pa|e|e]; cbn [bind]; try reflexivity.
+  destruct (json_find_all data found2) as [pb|e|e]; reflexivity.
 Qed.
 
 (* ---- the runner's predicate (json_cut_framed) says what the theorems say --------------------------- *)
@@ -783,32 +887,42 @@ Lemma jf_strs_after : forall fs at_, match jf_strs at_ fs with [] => True | q ::
 Proof. destruct fs as [|[[[[raw post] strlen] limit] more] r]; intros at_; cbn [jf_strs fst]; [exact I|lia]. Qed.
 
 (* several answers for one string name it once *)
-Definition named_step (data : bytes) (x : Z * Z * Z) (acc : option (list (Z * Z))) : option (list (Z * Z)) :=
-  let '(index, _, _) := x in
-  match acc, json_raw_len_at data index with
-  | Some l, Some rawlen => Some (insert_asc (index, rawlen) l)
+Definition named_step (data : bytes) (x : jfound) (acc : option (list (Z * Z))) : option (list (Z * Z)) :=
+  let '(index, _, _, raw) := x in
+  match acc, json_raw_at data index raw with
+  | Some l, Ok true =>
+      match json_raw_len_at data index with
+      | Some rawlen => if rawlen =? len raw - 2 then Some (insert_asc (index, rawlen) l) else None
+      | None => None
+      end
+  | Some l, Ok false => Some l
   | _, _ => None
   end.
 
 Lemma json_named_strings_fold data found :
   json_named_strings data found = fold_right (named_step data) (Some []) found.
 Proof.
-  induction found as [|[[index strlen] limit] r IH]; [reflexivity|].
+  induction found as [|[[[index strlen] limit] raw] r IH]; [reflexivity|].
   unfold json_named_strings in *. cbn [fold_right]. rewrite IH. reflexivity.
 Qed.
 
-Lemma json_named_field data at_ strlen n (L : list (Z * Z)) :
-  json_raw_len_at data at_ = Some n ->
+Lemma json_named_field data at_ strlen raw (L : list (Z * Z)) :
+  json_raw_at data at_ (QUOTE :: raw ++ [QUOTE]) = Ok true ->
+  json_raw_len_at data at_ = Some (len raw) ->
   match L with [] => True | q :: _ => at_ < fst q end ->
   forall ls l,
-  fold_right (named_step data) (Some L) (map (fun l => (at_, strlen, l)) (l :: ls)) = Some ((at_, n) :: L).
+  fold_right (named_step data) (Some L) (@map Z jfound (fun l => (at_, strlen, l, QUOTE :: raw ++ [QUOTE])) (l :: ls)) =
+  Some ((at_, len raw) :: L).
 Proof.
-  intros Hr HL. induction ls as [|l2 ls IH]; intros l.
-  - cbn [map fold_right named_step]. rewrite Hr. f_equal. destruct L as [|q L]; [reflexivity|]. cbn [insert_asc fst].
+  intros Ha Hr HL.
+  assert (El : len (QUOTE :: raw ++ [QUOTE]) - 2 = len raw) by (rewrite len_cons, len_app; cbn; lia).
+  induction ls as [|l2 ls IH]; intros l.
+  - cbn [map fold_right named_step]. rewrite Ha, Hr, El, Z.eqb_refl. f_equal.
+    destruct L as [|q L]; [reflexivity|]. cbn [insert_asc fst].
     replace (at_ <? fst q) with true by lia. reflexivity.
-  - change (map (fun l0 => (at_, strlen, l0)) (l :: l2 :: ls))
-      with ((at_, strlen, l) :: map (fun l0 => (at_, strlen, l0)) (l2 :: ls)).
-    cbn [fold_right]. rewrite IH. cbn [named_step]. rewrite Hr. f_equal. cbn [insert_asc fst].
+  - change (@map Z jfound (fun l0 => (at_, strlen, l0, QUOTE :: raw ++ [QUOTE])) (l :: l2 :: ls))
+      with ((at_, strlen, l, QUOTE :: raw ++ [QUOTE]) :: @map Z jfound (fun l0 => (at_, strlen, l0, QUOTE :: raw ++ [QUOTE])) (l2 :: ls)).
+    cbn [fold_right]. rewrite IH. cbn [named_step]. rewrite Ha, Hr, El, Z.eqb_refl. f_equal. cbn [insert_asc fst].
     replace (at_ <? at_) with false by lia. replace (at_ =? at_) with true by lia. reflexivity.
 Qed.
 
@@ -826,6 +940,7 @@ Proof.
   specialize (IH pre' data Hd' Hr). rewrite Hl' in IH.
   rewrite json_named_strings_fold in *. cbn [jf_found jf_strs]. rewrite fold_right_app, IH.
   apply json_named_field.
+  - rewrite Hd. apply json_raw_at_doc.
   - rewrite Hd. apply json_raw_len_at_doc. exact Hv.
   - pose proof (jf_strs_after r (len pre + len raw + 2 + len post)) as Ha.
     destruct (jf_strs (len pre + len raw + 2 + len post) r) as [|q L]; [exact I|].
@@ -905,9 +1020,18 @@ Local Open Scope Z_scope.
 
 Lemma json_cut_many_aliased_repaired :
   let doc := alias_pre ++ QUOTE :: alias_raw ++ QUOTE :: alias_post in
+  let q := QUOTE :: alias_raw ++ [QUOTE] in
   let out := Ok (alias_pre ++ QUOTE :: firstn 3 alias_raw ++ QUOTE :: alias_post) in
   esc_valid alias_raw = true /\
-  json_cut_many doc [(len alias_pre, 10, 3); (len alias_pre, 10, 5)] = out /\
-  json_cut_many doc [(len alias_pre, 10, 5); (len alias_pre, 10, 3)] = out /\
-  json_cut_many doc [(len alias_pre, 10, 3); (len alias_pre, 10, 3)] = out.
+  json_cut_many doc [(len alias_pre, 10, 3, q); (len alias_pre, 10, 5, q)] = out /\
+  json_cut_many doc [(len alias_pre, 10, 5, q); (len alias_pre, 10, 3, q)] = out /\
+  json_cut_many doc [(len alias_pre, 10, 3, q); (len alias_pre, 10, 3, q)] = out /\
+  (* a|@this next to a: gjson answers Index 0 for the modifier path *)
+  json_cut_many doc [(len alias_pre, 10, 3, q); (0, 10, 5, q)] = out /\
+  json_cut doc 0 10 5 q = Ok doc.
 Proof. repeat split; vm_compute; reflexivity. Qed.
+
+(* the hypothesis of c12_json_cut_index_unknown is satisfiable: Index 0 of that document is not a quote *)
+Lemma alias_raw_not_at_0 :
+  ~ raw_occurs_at (alias_pre ++ QUOTE :: alias_raw ++ QUOTE :: alias_post) 0 (QUOTE :: alias_raw ++ [QUOTE]).
+Proof. intros (a & b & H & Hl). apply len_zero_nil in Hl. subst a. vm_compute in H. discriminate H. Qed.
